@@ -11,6 +11,8 @@ import (
 	"crypto/rand"
 	"encoding/json"
 	"fmt"
+	"reflect"
+	"sort"
 	"time"
 
 	"circlsim/core"
@@ -595,6 +597,104 @@ func leafCount(toks []string) int {
 	return n
 }
 
+// leafPairs lists the (label, value) pairs written in a token sequence, sorted.
+func leafPairs(toks []string) []string {
+	var out []string
+	for i, t := range toks {
+		if t == ":" && i > 0 && i+1 < len(toks) {
+			out = append(out, toks[i-1]+":"+toks[i+1])
+		}
+	}
+	sort.Strings(out)
+	return out
+}
+
+func strayWord(toks []string) string {
+	for i, t := range toks {
+		if t == "(" || t == ")" || t == ":" || t == "and" || t == "or" || t == "not" {
+			continue
+		}
+		if (i > 0 && toks[i-1] == ":") || (i+1 < len(toks) && toks[i+1] == ":") {
+			continue
+		}
+		return t
+	}
+	return ""
+}
+
+// lookalikeFaults: after src has been parsed in this process, texts that differ from it only in
+// where the blanks are (a keyword glued to the word after or before it, a keyword split in two) are
+// parsed. They are other texts: refused, or accepted as the policy *they* spell - the leaves of the
+// printed policy are the leaves written in the text and no word of the text is left over.
+func lookalikeFaults(src string, seed uint64, run *core.Run, comp string) bool {
+	var first tkn20.Policy
+	if first.FromString(src) != nil {
+		return true
+	}
+	toks := tokens(src)
+	r := core.NewPRNG(seed ^ 0x100ca11e)
+	for k := 0; k < 4; k++ {
+		mut := append([]string{}, toks...)
+		var at []int
+		for i, t := range mut {
+			if t == "and" || t == "or" || t == "not" {
+				at = append(at, i)
+			}
+		}
+		if len(at) == 0 {
+			return true
+		}
+		i := at[r.Intn(len(at))]
+		switch r.Intn(3) {
+		case 0: // glued to the word after it
+			if i+1 >= len(mut) || mut[i+1] == "(" || mut[i+1] == ")" || mut[i+1] == ":" {
+				continue
+			}
+			mut = append(mut[:i], append([]string{mut[i] + mut[i+1]}, mut[i+2:]...)...)
+		case 1: // glued to the word before it
+			if i == 0 || mut[i-1] == "(" || mut[i-1] == ")" || mut[i-1] == ":" {
+				continue
+			}
+			mut = append(mut[:i-1], append([]string{mut[i-1] + mut[i]}, mut[i+1:]...)...)
+		case 2: // split in two
+			w := mut[i]
+			mut = append(mut[:i], append([]string{w[:1], w[1:]}, mut[i+1:]...)...)
+		}
+		text := ""
+		for j, t := range mut {
+			if j > 0 && t != ":" && mut[j-1] != ":" {
+				text += " "
+			}
+			text += t
+		}
+		var pl tkn20.Policy
+		var err error
+		pan, v, st := core.Try(func() { err = pl.FromString(text) })
+		if pan {
+			run.Violate(comp+".Policy.FromString", core.PanicClass(v), "%q: %s at %s", text, v, st)
+			return false
+		}
+		run.Fault("history:text-parsed-after-a-lookalike-that-differs-in-blanks-only")
+		if err != nil {
+			continue
+		}
+		var printed string
+		if pan, v, st := core.Try(func() { printed = pl.String() }); pan {
+			run.Violate(comp+".Policy.String", core.PanicClass(v), "policy accepted from %q: %s at %s", text, v, st)
+			return false
+		}
+		if w := strayWord(mut); w != "" {
+			run.Violate(comp+".Policy.FromString", "accepts-text-with-a-stray-word", "%q (parsed after %q) is accepted without error as the policy %q: the word %q is neither a keyword nor part of a leaf", text, src, printed, w)
+			return false
+		}
+		if got, want := leafPairs(tokens(printed)), leafPairs(mut); !reflect.DeepEqual(got, want) {
+			run.Violate(comp+".Policy.FromString", "accepted-policy-is-not-the-one-written", "%q (parsed after %q) is accepted as the policy %q: leaves %v, the text spells %v", text, src, printed, got, want)
+			return false
+		}
+	}
+	return true
+}
+
 func syntaxFaults(src string, seed uint64, run *core.Run, comp string) bool {
 	toks := tokens(src)
 	r := core.NewPRNG(seed ^ 0x51a7)
@@ -666,6 +766,9 @@ func execPolicyOnly(p *Plan, run *core.Run, comp string) {
 	// syntax faults: one token of the text is dropped, doubled or a parenthesis is put in. What
 	// the parser then accepts must still contain every leaf that is written in the text (a
 	// policy weaker than the text a holder reads is the dangerous outcome).
+	if !lookalikeFaults(src, p.Seed, run, comp) {
+		return
+	}
 	if !syntaxFaults(src, p.Seed, run, comp) {
 		return
 	}
